@@ -471,3 +471,145 @@ def mutual_removal(ctx, res):
                f"reverse call is sync_trait({', '.join(args)}); expected "
                f"(alias, self, trait_name, False, True)")
     res.floor(1)
+
+
+# ---------------------------------------------------------------------------
+# C20.items-index-kinds: the `index` of a list-items event is an int for
+# contiguous changes and a `slice` for extended-slice assignments/deletions
+# (that is what TraitList.__setitem__/__delitem__ pass to notify, see C05).
+# A consumer that replays the event on another list must not do arithmetic on
+# the index (or use it as a slice bound) on a path that has not excluded the
+# slice kind.
+
+def _producers_emit_slices(repo):
+    """does some TraitList mutator pass a slice-valued index to notify()?"""
+    rel = "traits/trait_list_object.py"
+    mod = repo.module(rel)
+    for f in ("TraitList.__setitem__", "TraitList.__delitem__"):
+        fn = repo.func(rel, f)
+        for c in ast.walk(fn):
+            if isinstance(c, ast.Call) and isinstance(c.func, ast.Attribute) \
+                    and c.func.attr == "notify":
+                return True
+    return False
+
+
+@rule("C20.items-index-kinds", ["C20", "C05"],
+      "a handler that replays a list-items event on another list treats both "
+      "kinds of `event.index` (int and, for extended slices, slice): no "
+      "arithmetic on the index and no use as a slice bound on a path that "
+      "has not tested it for being a slice")
+def items_index_kinds(ctx, res):
+    from ..cfg import enumerate_paths
+    from ..pycfg import build_cfg
+    repo = get_pyrepo(ctx)
+    if not _producers_emit_slices(repo):
+        raise AnalysisError("TraitList.__setitem__/__delitem__: notify sites")
+    n = 0
+    for rel, mod in sorted(repo.modules.items()):
+        if "/tests/" in rel or ".index" not in mod.src:
+            continue
+        for qual, fn in sorted(mod.functions.items()):
+            params = [a.arg for a in fn.args.args]
+            evs = [p for p in params if p == "event"]
+            if not evs or not qual.split(".")[-1].endswith("items_modified"):
+                continue
+            ev = evs[0]
+            # locals holding the index
+            holders = {f"{ev}.index"}
+            for a in ast.walk(fn):
+                if isinstance(a, ast.Assign) and norm(a.value) in holders:
+                    for t in a.targets:
+                        if isinstance(t, ast.Name):
+                            holders.add(t.id)
+            g = build_cfg(fn, qual)
+            bad = None
+            uses = 0
+            for path in enumerate_paths(g, max_paths=5000):
+                not_slice = False
+                for nid, lab in path:
+                    nd = g.nodes[nid]
+                    a = nd.ast
+                    if a is None:
+                        continue
+                    if nd.kind == "cond":
+                        t = a
+                        if isinstance(t, ast.Call) and norm(t.func) == \
+                                "isinstance" and norm(t.args[0]) in holders \
+                                and "slice" in norm(t.args[1]):
+                            if lab == "F":
+                                not_slice = True
+                            elif lab == "T":
+                                not_slice = "is-slice"
+                        continue
+                    for x in ast.walk(a):
+                        arith = isinstance(x, ast.BinOp) and (
+                            norm(x.left) in holders or norm(x.right) in holders)
+                        bound = isinstance(x, ast.Slice) and any(
+                            b is not None and norm(b) in holders
+                            for b in (x.lower, x.upper))
+                        if arith or bound:
+                            uses += 1
+                            if not_slice is not True and bad is None:
+                                bad = x
+            if not uses:
+                continue
+            n += 1
+            key = f"{rel.split('/')[-1]}:{qual}"
+            res.instance(key, mod.loc(fn))
+            res.oblige(bad is None, key + ":slice-index",
+                       mod.loc(bad) if bad is not None else mod.loc(fn),
+                       f"`{norm(bad)[:60] if bad is not None else ''}` uses "
+                       f"the event index as a number on a path that has not "
+                       f"excluded a slice: for an extended-slice assignment "
+                       f"or deletion (`l[::2] = ...`, `del l[::2]`) the "
+                       f"handler raises TypeError and the synchronised lists "
+                       f"diverge")
+    res.floor(1)
+
+
+# ---------------------------------------------------------------------------
+# C20.link-table-snapshot: the propagation handlers run user code for every
+# partner (the partner's validators and handlers).  That code may unlink a
+# partner or let one be collected, which deletes entries of the very table
+# being walked: the loop must walk a snapshot, or the walk dies with
+# RuntimeError after the first partner, the remaining partners never get the
+# value and the re-entrancy lock stays set.
+
+@rule("C20.link-table-snapshot", ["C20"],
+      "the propagation handlers iterate over a snapshot of the link table: "
+      "unlinking or collecting a partner from inside a partner's handler "
+      "must not abort the propagation to the remaining partners")
+def link_table_snapshot(ctx, res):
+    from ..pyfacts import expand_locals
+    repo = get_pyrepo(ctx)
+    HTREL = "traits/has_traits.py"
+    mod = repo.module(HTREL)
+    n = 0
+    for q in ("HasTraits._sync_trait_modified",
+              "HasTraits._sync_trait_items_modified"):
+        fn = repo.inlined(HTREL, q)
+        # the link table: what sync_trait registers under the trait name
+        loops = [l for l in ast.walk(fn) if isinstance(l, ast.For)
+                 and any(isinstance(c, ast.Call)
+                         and norm(c.func) in ("setattr", "getattr")
+                         for c in ast.walk(ast.Module(l.body, [])))]
+        if len(loops) != 1:
+            raise AnalysisError(f"{q}: propagation loop not recognised")
+        lp = loops[0]
+        it = expand_locals(fn, lp.iter)
+        t = norm(it)
+        snap = isinstance(it, ast.Call) and (
+            norm(it.func) in ("list", "tuple", "sorted")
+            or (isinstance(it.func, ast.Attribute) and it.func.attr == "copy")
+            or norm(it.func) == "copy.copy")
+        n += 1
+        res.instance(q, mod.loc(lp), iterates=t)
+        res.oblige(snap, f"{q.split('.')[-1]}:live-iteration", mod.loc(lp),
+                   f"the propagation loop walks `{t}` itself while each "
+                   f"iteration runs the partner's validators and handlers: "
+                   f"when one of them unlinks a partner (or the last "
+                   f"reference to one goes away) the table changes size, the "
+                   f"walk raises RuntimeError, the remaining partners are "
+                   f"skipped and the lock entry is never removed")
+    res.floor(2)
